@@ -22,6 +22,11 @@
 //	spec/net/Cuts.tla         a frame cut after c bytes, then the end of the connection: never delivered, session closed,
 //	                          whether the reader's full read got nothing (io.EOF) or a part; cuts.go cuts real frames at
 //	                          every offset on every read path and feeds every proper prefix of a message to every reader.
+//	spec/net/Segments.tla     the connection as a byte queue with a nondeterministic Deliver(k): the objects read do not depend
+//	                          on how the stream is cut into reads (coalesced frames, one byte at a time, cuts inside length
+//	                          prefixes and MACs); TLC checks that for every segmentation and enumerates pipelined conversations
+//	                          that mix the read paths with their segmentations; segments.go realises each one between the real
+//	                          endpoints on a buffered in-memory connection (segconn.go) that coalesces and splits as scheduled.
 //	spec/net/Reuse.tla        receiver reuse: the buffer-reusing decoder (length, capacity, reset, chunked growth) over
 //	                          every sequence of data lengths, and "decoding replaces" for any receiver; reuse.go reads
 //	                          real responses of these lengths into one reused real object over real RHP2/RHP3 sessions
@@ -415,8 +420,9 @@ func main() {
 		phases[name] = float64(time.Since(tPhase).Milliseconds()) / 1000
 		tPhase = time.Now()
 	}
-	c.Rule("Sessions: TLC enumerates every conversation of Session.tla (length ≤ MaxMsgs, frame kinds object/error response, ≤ 2 faults out of lenup/lendn/lenhi/nonce/body/pad/tag/trunc/ext on distinct frames) with the demanded outcome; each replayed case = one schedule on one real RHP2 transport pair in one mode (requests renter→host, responses host→renter, raw responses + VerifyTag); non-trivial = at least one fault, or ≥ 2 frames delivered. Size sweep: TLC (FrameSizes.tla) walks every encoded object length within W bytes of a boundary of the RHP2 framing rules (pad / do not pad; at / above the floor of the reader's limit) and per length the caller's limits on both sides of the declared size; one evaluation = one real object of exactly that length moved over a real transport pair in one mode (request, response, raw response), compared with the demanded wire size, verdict, identity and bytes consumed; distinct = distinct (mode, length, limit); repeats in other orders are not counted as distinct. Exchanges: TLC (Exchanges.tla) enumerates every conversation of ≤ 3 exchanges on one connection (request object or not; 1-2 responses, objects or error responses; the per-exchange preambles of the protocol) per protocol; one replayed conversation = all of it on ONE real RHP2 session / RHP3 stream / RHP4 stream / gateway stream; evaluations = exchanges completed; distinct = conversations. Cuts: TLC (Cuts.tla) walks every cut point of a padded RHP2 frame and the boundary set of a larger one; one evaluation = one real frame cut at that offset on one read path (ReadID, ReadRequest, ReadResponse, RawResponse) followed by the end of the connection, judged on delivery and on the session being closed; plus every proper prefix of one message of every wire type through its real reader (one evaluation each, one distinct per type). Calls: TLC (Calls.tla) walks the response sizes in steps up to, and byte by byte around, the documented limit of RHP2 Transport.Call and RHP3 Stream.Call; one evaluation = one real Call between real endpoints answered with a real response of exactly that size. Receiver reuse: TLC (Reuse.tla) enumerates every sequence of data lengths (≤ MaxSteps messages) for one reused and for fresh receivers; one evaluation = one real response (RHP2 RPCReadResponse through ReadResponse and through RawResponse; RHP3 ExecuteProgram response / request) read on a real session into that receiver and compared; distinct = (mode, receiver, sequence). Dirty receivers: every DIRTY case (held zero/one/few/many elements × arriving zero/one/few/many; optional set/unset; per-position variants; and, for every settable field of every type found by reflection, the zero / sentinel value arriving into a receiver holding a non-zero value and vice versa) × every registered wire type of gateway/RHP2/RHP3/RHP4: one evaluation = one real object decoded by the real decoder into a receiver holding another real object, compared with the bytes sent; non-trivial = all but (zero, zero). Handshake: every (genesis, unique id)² × in-flight rewrite of version/genesis/unique id; non-trivial = all. Framing: one line = one real object of a stated shape written by the real writer and read by the real reader (or one never-ending stream, or one error response); non-trivial = distinct (object, shape, limit) lines whose message is not empty.")
+	c.Rule("Sessions: TLC enumerates every conversation of Session.tla (length ≤ MaxMsgs, frame kinds object/error response, ≤ 2 faults out of lenup/lendn/lenhi/nonce/body/pad/tag/trunc/ext on distinct frames) with the demanded outcome; each replayed case = one schedule on one real RHP2 transport pair in one mode (requests renter→host, responses host→renter, raw responses + VerifyTag); non-trivial = at least one fault, or ≥ 2 frames delivered. Size sweep: TLC (FrameSizes.tla) walks every encoded object length within W bytes of a boundary of the RHP2 framing rules (pad / do not pad; at / above the floor of the reader's limit) and per length the caller's limits on both sides of the declared size; one evaluation = one real object of exactly that length moved over a real transport pair in one mode (request, response, raw response), compared with the demanded wire size, verdict, identity and bytes consumed; distinct = distinct (mode, length, limit); repeats in other orders are not counted as distinct. Exchanges: TLC (Exchanges.tla) enumerates every conversation of ≤ 3 exchanges on one connection (request object or not; 1-2 responses, objects or error responses; the per-exchange preambles of the protocol) per protocol; one replayed conversation = all of it on ONE real RHP2 session / RHP3 stream / RHP4 stream / gateway stream; evaluations = exchanges completed; distinct = conversations. Cuts: TLC (Cuts.tla) walks every cut point of a padded RHP2 frame and the boundary set of a larger one; one evaluation = one real frame cut at that offset on one read path (ReadID, ReadRequest, ReadResponse, RawResponse) followed by the end of the connection, judged on delivery and on the session being closed; plus every proper prefix of one message of every wire type through its real reader (one evaluation each, one distinct per type). Calls: TLC (Calls.tla) walks the response sizes in steps up to, and byte by byte around, the documented limit of RHP2 Transport.Call and RHP3 Stream.Call; one evaluation = one real Call between real endpoints answered with a real response of exactly that size. Segmentations: TLC (Segments.tla) enumerates per lane (RHP2 host→renter behind key exchange and challenge, RHP2 renter→host, RHP4 requests, RHP4 responses, RHP3 and gateway connections) every conversation of ≤ MaxMsgs messages written back to back (read path readMessage / RawResponse+VerifyTag / ReadID+ReadRequest / plain decoder; padded or larger than one buffer; object or error response) × every segmentation of the stream (no cut; ≤ MaxCuts cuts between any two units of any part of any frame; periods down to one byte per read); one evaluation = one frame moved between real endpoints over a connection that hands the stream over in exactly these segments; distinct = (lane, conversation, segmentation); for RHP3/gateway only the periodic and cut-free ones apply (the multiplexer's packets are its own). Receiver reuse: TLC (Reuse.tla) enumerates every sequence of data lengths (≤ MaxSteps messages) for one reused and for fresh receivers; one evaluation = one real response (RHP2 RPCReadResponse through ReadResponse and through RawResponse; RHP3 ExecuteProgram response / request) read on a real session into that receiver and compared; distinct = (mode, receiver, sequence). Dirty receivers: every DIRTY case (held zero/one/few/many elements × arriving zero/one/few/many; optional set/unset; per-position variants; and, for every settable field of every type found by reflection, the zero / sentinel value arriving into a receiver holding a non-zero value and vice versa) × every registered wire type of gateway/RHP2/RHP3/RHP4: one evaluation = one real object decoded by the real decoder into a receiver holding another real object, compared with the bytes sent; non-trivial = all but (zero, zero). Handshake: every (genesis, unique id)² × in-flight rewrite of version/genesis/unique id; non-trivial = all. Framing: one line = one real object of a stated shape written by the real writer and read by the real reader (or one never-ending stream, or one error response); non-trivial = distinct (object, shape, limit) lines whose message is not empty.")
 	c.Assume("in-memory net.Pipe pairs with a byte-rewriting proxy stand for the network; deadlines only classify a starved read as 'not delivered'")
+	c.Assume("segmentations: a buffered in-memory byte queue per direction stands for a TCP connection (unbounded socket buffers; a read never crosses a scheduled cut; an incomplete segment is handed over only when the writer is blocked, finished or - under the multiplexer - silent for 300 µs); a unit of the model is placed on seed-chosen byte offsets of the real part; periods of 2..5 units stand for 7, 61, 1000, 4097 bytes")
 	c.Assume("authentication inside go.sia.tech/mux (gateway, RHP3) is not modelled: there only end-to-end delivery and prefix-safety under a flipped bit are checked")
 	c.Assume("gateway objects have no exported encoder: their wire size is mirrored from the exported encoders of the field types; acceptance is observed on the real stream reader")
 	c.Assume("size sweep: an encoded length is realised by a real RPC object with one free-length byte field (Settings, Data, ArbitraryData, action data, error data/description); other field mixes of the same length are not tried")
@@ -447,6 +453,10 @@ func main() {
 	var callCases map[string]callCase
 	wgSizes.Add(1)
 	go func() { defer wgSizes.Done(); callCases = loadCalls(c) }()
+	var segCases map[string]segCase
+	var segStates int64
+	wgSizes.Add(1)
+	go func() { defer wgSizes.Done(); segCases, segStates = loadSegments(c) }()
 	fm := c.MustTLC(vlib.TLCOpts{SpecDirs: []string{"net"}, Module: "Framing", Config: "Framing.cfg", Workers: 8})
 	c.Cov("framing_model_states", fm.Distinct)
 	sessCfgs := []string{"Session3.cfg"} // ≤ 3 frames, ≤ 2 faults
@@ -478,6 +488,8 @@ func main() {
 	c.Cov("cut_model_states", cutStates)
 	c.Cov("cut_cases_enumerated", len(cutCases))
 	c.Cov("exchange_model_states", exchStates)
+	c.Cov("segmentation_model_states", segStates)
+	c.Cov("segmentation_cases_enumerated", len(segCases))
 	c.Cov("exchange_conversations_enumerated", len(exchCases))
 	c.Cov("reuse_sequences_enumerated", len(reuseCases))
 	c.Cov("dirty_receiver_cases_enumerated", len(dirtyCases))
@@ -615,6 +627,10 @@ func main() {
 	// the entry points with their own read limit (Calls.tla)
 	kt := runCalls(c, callCases, r)
 	phase("calls_with_own_limit")
+	// the stream cut into reads at arbitrary points (Segments.tla)
+	gt := runSegments(c, segCases, r)
+	selftestSegments(c, segCases)
+	phase("segmentations")
 
 	// handshakes
 	hkeys := make([]string, 0, len(hss))
@@ -736,7 +752,7 @@ func main() {
 	}
 	parallel(8, cjobs)
 	wgSlow.Wait()
-	c.Traces(evals + sw.sessions + ru.sessions + xt.sessions + ct.sessions + kt.sessions)
+	c.Traces(evals + sw.sessions + ru.sessions + xt.sessions + ct.sessions + kt.sessions + gt.sessions)
 	phase("handshakes_keyexchange_conversations")
 
 	// vacuity guards: sessions
@@ -790,7 +806,7 @@ func main() {
 		b, _ := json.Marshal(l)
 		distinct[string(b)] = true
 	}
-	c.Count(evals+sw.evals+ru.evals+dt.evals+xt.evals+ct.evals+kt.evals+int64(len(rec.lines)), nontriv+sw.distinct+ru.distinct+dt.distinct+xt.distinct+ct.distinct+kt.distinct+int64(len(distinct)))
+	c.Count(evals+sw.evals+ru.evals+dt.evals+xt.evals+ct.evals+kt.evals+gt.evals+int64(len(rec.lines)), nontriv+sw.distinct+ru.distinct+dt.distinct+xt.distinct+ct.distinct+kt.distinct+gt.distinct+int64(len(distinct)))
 	objs := make([]string, 0, len(rec.objs))
 	perFam := map[string]int{}
 	for o := range rec.objs {
@@ -937,6 +953,12 @@ func replay(c *vlib.Ctx) {
 		run.Obs = nil
 		o, _ := runExchangeCase(c, run)
 		fmt.Printf("replay exchanges %s: observed %+v\n", run.Case.key(), o)
+	case "segment":
+		var run segRun
+		json.Unmarshal(f.Case, &run)
+		run.Obs = nil
+		o, _ := runSegmentCase(c, run)
+		fmt.Printf("replay segmentation %s: observed %+v\n", run.Case.key(), o)
 	case "cut":
 		var run cutRun
 		json.Unmarshal(f.Case, &run)
